@@ -69,4 +69,21 @@ CLAIMED.update({
         technique="fault enumeration at every offset, records judged by the TLC trace spec with the TLA+ decoder",
         ref="DESIGN.md section 4 C10"),
 })
+CLAIMED.update({
+    "C07": dict(
+        text=("The MIDI 1.0 encoding of every constructor and the answer of every accessor are operators of MidiMessage.tla (model-checked over boundary arguments). "
+              "TLC exports them as decision tables; a Go sweep calls every constructor over its whole argument domain (7 M calls quick, 90 M thorough), runs every accessor on "
+              "each result and sends every in-range message through the loopback port, comparing with the tables; TLC itself judges all boundary tuples and >=10^4 random "
+              "full records per run on the concrete arguments, which also validates the sweep's composition glue."),
+        note="Trusted: TLC, MidiMessage.tla, the ~40-line table composition in the sweep (validated by TLC each run).",
+        technique="TLC-exported decision tables + exhaustive sweep of the real constructors/accessors/loopback; TLC trace validation of sampled calls",
+        ref="DESIGN.md section 4 C07"),
+    "C08": dict(
+        text=("ClassOk (exactly one category, category allowed by the MIDI status table, all accepting accessors of one type, accepting implies reported type) is a TLA+ "
+              "predicate. A Go sweep asks the real library everything about 10.6 M (quick) / all 16.8 M (thorough) strings of length 0..3 at both message levels under "
+              "recover and evaluates the mirrored predicate with the TLC-exported tables; TLC judges >=2*10^4 sampled observations incl. 4..64-byte sysex-/meta-shaped strings."),
+        note="Trusted: TLC, MidiMessage.tla, Go mirror of ClassOk (validated by TLC each run).",
+        technique="TLC-exported tables + exhaustive sweep of the real classification functions; TLC trace validation of sampled observations",
+        ref="DESIGN.md section 4 C08"),
+})
 NOT_YET = {}
